@@ -160,7 +160,7 @@ theorem attachCtx_length (h : Heap) (child t : Id) (f : String) : (attachCtx h c
 /-- padding: the new nodes are nulls (they list nothing), `t` lists what it listed and new nodes -/
 theorem padTo_kids : ∀ (n : Nat) (h0 : Heap) (t idx : Nat), t < h0.length →
     (∀ a, h0.length ≤ a → kids (padTo n h0 t idx) a = []) ∧
-    (∀ x, x ∈ kids (padTo n h0 t idx) t → x ∈ kids h0 t ∨ h0.length ≤ x) := by
+    (∀ x, x ∈ kids (padTo n h0 t idx) t → x ∈ kids h0 t ∨ (h0.length ≤ x ∧ x < (padTo n h0 t idx).length)) := by
   intro n
   induction n with
   | zero => intro h0 t idx _; exact ⟨fun a ha => kids_none ha, fun x hx => .inl hx⟩
@@ -195,21 +195,22 @@ theorem padTo_kids : ∀ (n : Nat) (h0 : Heap) (t idx : Nat), t < h0.length →
             rw [kids_of_node this, ← hnl]; rfl
           · exact i1 a' (by rw [hl2]; exact Nat.succ_le_of_lt (Nat.lt_of_le_of_ne ha' (Ne.symm e)))
         · intro x hx
-          rcases i2 x hx with h1 | h1
+          have hlen : h2.length ≤ (padTo n h2 t idx).length := (padTo_upd n h2 t idx).1
+          rcases i2 x hx with h1 | ⟨h1, h1b⟩
           · rw [hk2] at h1
             rw [hk0]
             simp only [List.mem_append, List.mem_singleton] at h1 ⊢
             rcases h1 with h1 | h1 | h1
             · exact .inl (.inl h1)
             · exact .inl (.inr h1)
-            · exact .inr (by rw [h1]; exact Nat.le_refl _)
-          · exact .inr (by rw [hl2] at h1; exact Nat.le_of_succ_le h1)
+            · exact .inr ⟨by rw [h1]; exact Nat.le_refl _, by rw [h1]; exact Nat.lt_of_lt_of_le (by rw [hl2]; exact Nat.lt_succ_self _) hlen⟩
+          · exact .inr ⟨by rw [hl2] at h1; exact Nat.le_of_succ_le h1, h1b⟩
       · exact ⟨fun a ha => kids_none ha, fun x hx => .inl hx⟩
 
 /-- storing `c` under a segment of `t` -/
 theorem storeSeg_kids (h0 : Heap) (t : Id) (s : Seg) (c : Id) (ht : t < h0.length) :
     (∀ a, a < h0.length → a ≠ t → kids (storeSeg h0 t s c) a = kids h0 a) ∧
-    (∀ x, x ∈ kids (storeSeg h0 t s c) t → x ∈ kids h0 t ∨ h0.length ≤ x ∨ x = c) ∧
+    (∀ x, x ∈ kids (storeSeg h0 t s c) t → x ∈ kids h0 t ∨ (h0.length ≤ x ∧ x < (storeSeg h0 t s c).length) ∨ x = c) ∧
     (∀ a, h0.length ≤ a → kids (storeSeg h0 t s c) a = []) := by
   have u := storeSeg_upd h0 t s c
   refine ⟨fun a ha hne => kids_eq_of_node_eq (u.2.1 a ha hne), ?_, ?_⟩
@@ -234,8 +235,15 @@ theorem storeSeg_kids (h0 : Heap) (t : Id) (s : Seg) (c : Id) (ht : t < h0.lengt
         · exact .inl (.inr hx)
     | idx i =>
       intro x hx
-      show x ∈ kids h0 t ∨ h0.length ≤ x ∨ x = c
+      show x ∈ kids h0 t ∨ (h0.length ≤ x ∧ x < (setAt h0 t i c).length) ∨ x = c
       have hx' : x ∈ kids (setAt h0 t i c) t := hx
+      have hlenA : (setAt h0 t i c).length = (padTo (i + 1) h0 t i).length := by
+        unfold setAt
+        simp only
+        cases getSub (padTo (i + 1) h0 t i) t with
+        | none => rfl
+        | some q => simp only; split <;> rw [setBody_length]
+      rw [hlenA]
       unfold setAt at hx'
       simp only at hx'
       obtain ⟨_, p2⟩ := padTo_kids (i + 1) h0 t i ht
@@ -316,7 +324,7 @@ theorem setChain_grows (child : Id) : ∀ (rest : List Seg) (h : Heap) (t : Id),
       · intro x hx
         rcases k2 x hx with h1 | h1 | h1
         · rw [kids_attachCtx] at h1; exact .inl h1
-        · rw [hl] at h1; exact .inr (.inl h1)
+        · rw [hl] at h1; exact .inr (.inl h1.1)
         · exact .inr (.inr h1)
       · intro a ha x hx
         rw [k3 a (by rw [hl]; exact ha)] at hx
@@ -346,7 +354,7 @@ theorem setChain_grows (child : Id) : ∀ (rest : List Seg) (h : Heap) (t : Id),
         rw [g.old t (Nat.lt_trans ht hc1) hne_t] at hx
         rcases k2 x hx with e | e | e
         · rw [kA_old t ht] at e; exact .inl e
-        · exact .inr (.inl (by rw [hAl] at e; exact Nat.le_of_succ_le e))
+        · exact .inr (.inl (by rw [hAl] at e; exact Nat.le_of_succ_le e.1))
         · exact .inr (.inl (by rw [e]; exact Nat.le_refl _))
       · intro a ha x hx
         by_cases hge : h1.length ≤ a
@@ -446,7 +454,7 @@ theorem setChain_prim_grows0 (k v : String) : ∀ (rest : List Seg) (h : Heap) (
       · intro x hx
         rcases k2 x hx with e | e | e
         · rw [kA_old t ht] at e; exact .inl e
-        · exact .inr (by rw [hAl] at e; exact Nat.le_of_succ_le e)
+        · exact .inr (by rw [hAl] at e; exact Nat.le_of_succ_le e.1)
         · exact .inr (by rw [e]; exact Nat.le_refl _)
       · intro a ha x hx
         by_cases e : a = h.length
@@ -478,7 +486,7 @@ theorem setChain_prim_grows0 (k v : String) : ∀ (rest : List Seg) (h : Heap) (
         rw [g.old t (Nat.lt_trans ht hc1) hne_t] at hx
         rcases k2 x hx with e | e | e
         · rw [kA_old t ht] at e; exact .inl e
-        · exact .inr (by rw [hAl] at e; exact Nat.le_of_succ_le e)
+        · exact .inr (by rw [hAl] at e; exact Nat.le_of_succ_le e.1)
         · exact .inr (by rw [e]; exact Nat.le_refl _)
       · intro a ha x hx
         by_cases hge : h1.length ≤ a
@@ -494,5 +502,59 @@ theorem setChain_prim_grows0 (k v : String) : ∀ (rest : List Seg) (h : Heap) (
               rw [hAl]; exact Nat.succ_le_of_lt (Nat.lt_of_le_of_ne ha (Ne.symm e))
             rw [g.old a halt e, k3 a hgeA] at hx
             cases hx
+
+/-! ### the entries stay inside the heap -/
+
+theorem kidsClosed_append_leaf {h : Heap} (nd : Node) (kc : KidsClosed h) (hk : nd.body.children = []) :
+    KidsClosed (h ++ [nd]) := by
+  intro a x hx
+  by_cases ha : a < h.length
+  · rw [kids_eq_of_node_eq (List.getElem?_append_left ha)] at hx
+    exact Nat.lt_of_lt_of_le (kc a x hx) (by simp)
+  · by_cases e : a = h.length
+    · subst e
+      have : (h ++ [nd])[h.length]? = some nd := by simp
+      rw [kids_of_node this, hk] at hx
+      cases hx
+    · have hge : (h ++ [nd]).length ≤ a := by
+        simp only [List.length_append, List.length_cons, List.length_nil]
+        exact Nat.succ_le_of_lt (Nat.lt_of_le_of_ne (Nat.le_of_not_lt ha) (Ne.symm e))
+      rw [kids_none hge] at hx; cases hx
+
+theorem storeSeg_kidsClosed (h0 : Heap) (t : Id) (s : Seg) (c : Id) (ht : t < h0.length) (hc : c < h0.length)
+    (kc : KidsClosed h0) : KidsClosed (storeSeg h0 t s c) := by
+  obtain ⟨k1, k2, k3⟩ := storeSeg_kids h0 t s c ht
+  have hlen : h0.length ≤ (storeSeg h0 t s c).length := (storeSeg_upd h0 t s c).1
+  intro a x hx
+  by_cases ha : a < h0.length
+  · by_cases e : a = t
+    · subst e
+      rcases k2 x hx with e1 | ⟨_, e1⟩ | e1
+      · exact Nat.lt_of_lt_of_le (kc a x e1) hlen
+      · exact e1
+      · rw [e1]; exact Nat.lt_of_lt_of_le hc hlen
+    · rw [k1 a ha e] at hx
+      exact Nat.lt_of_lt_of_le (kc a x hx) hlen
+  · rw [k3 a (Nat.le_of_not_lt ha)] at hx
+    cases hx
+
+theorem setChain_prim_kidsClosed (k v : String) : ∀ (rest : List Seg) (h : Heap) (t : Id), t < h.length → KidsClosed h →
+    KidsClosed (setChain h t rest (.prim k v)) := by
+  intro rest
+  induction rest with
+  | nil => intro h t _ kc; exact kc
+  | cons s r ih =>
+    intro h t ht kc
+    cases r with
+    | nil =>
+      rw [setChain_one]
+      apply storeSeg_kidsClosed _ t s h.length (by simp; exact Nat.lt_succ_of_lt ht) (by simp)
+      exact kidsClosed_append_leaf _ kc rfl
+    | cons s2 r2 =>
+      rw [setChain_cons2]
+      have kcA : KidsClosed (h ++ [(⟨some t, s.str, .sub [] []⟩ : Node)]) := kidsClosed_append_leaf _ kc rfl
+      have kc1 := storeSeg_kidsClosed _ t s h.length (by simp; exact Nat.lt_succ_of_lt ht) (by simp) kcA
+      have hl1 := (storeSeg_upd (h ++ [(⟨some t, s.str, .sub [] []⟩ : Node)]) t s h.length).1
+      exact ih _ h.length (Nat.lt_of_lt_of_le (by simp) hl1) kc1
 
 end Ucfg.Forest
